@@ -64,6 +64,24 @@ func init() {
 				items = append(items, Item{ID: "dec:" + mc.ID(), Run: func(c *Ctx) { c16dec(c, mc) }})
 				items = append(items, Item{ID: "enc:" + mc.ID(), Run: func(c *Ctx) { c16enc(c, mc) }})
 			}
+			// length-prefixed text far beyond the small shapes: bulk / zero-copy paths that start at a size
+			// threshold (every type that carries such a text, first key, lists empty)
+			seen := map[string]bool{}
+			for _, mc := range c.msgCases([]int{0}, false, false) {
+				if _, pstr, _ := c.treeInfo(mc.Mod, mc.Typ, mc.Key, mc.Inner, 0); !pstr || seen[mc.Mod+"."+mc.Typ] || c.frameInfo(mc.Mod, mc.Typ) != nil {
+					continue
+				}
+				seen[mc.Mod+"."+mc.Typ] = true
+				lens := []int{300, 40000}
+				if c.thorough() {
+					lens = []int{255, 256, 4097, 32769, 65535, 70000}
+				}
+				for _, L := range lens {
+					mc := mc
+					mc.PLen = L + 1
+					items = append(items, Item{ID: "dec:" + mc.ID(), Run: func(c *Ctx) { c16dec(c, mc) }})
+				}
+			}
 			return items
 		}}
 	drivers["C20"] = &Driver{Prop: "C20", Level: "model_checking",
